@@ -270,7 +270,7 @@ pub fn run(opts: &Opts) -> i32 {
     for (k, text) in [
         "exists (X : VType) . (exists (Y : VType) . X * Y)\n", "exists (X : VType) (Y : VType) . X * Y\n", "forall (X : VType) . (forall (Y : VType) . X -> Ret Y)\n",
         "fn x => (fn y => x)\n", "pi (x : A) . (pi (y : B) . C)\n", "f ((g x))\n", "A -> (B -> C) -> D\n", "(A * B) * C * (D * E)\n", "! ((f x))\n", "((f x))/field\n",
-        "exists ((x)) . B\n", "(field = field, ((x)))\n", "let foo : Int\n  -> Int = bar in\nfoo\n",
+        "exists ((x)) . B\n", "(field = field, ((x)))\n", "@[debug(\"m\", 3)] (_)\n", "@[monadic] ((_))\n", "let foo : Int\n  -> Int = bar in\nfoo\n",
     ].iter().enumerate() {
         inputs.push((format!("regression:{k}"), text.to_string()));
     }
@@ -402,6 +402,12 @@ pub fn run(opts: &Opts) -> i32 {
                             "glued-line-comment"
                         } else if verbatim || text.contains("verbatim") {
                             "verbatim-directive"
+                        } else if third == out2
+                            && ["=>(fn", ".(forall", ".(pi", ".(sigma", ".(exists", "=>((fn", ".((forall", ".((pi", ".((sigma", ".((exists"].iter().any(|p| squeeze(&text).contains(p))
+                        {
+                            // the first pass drops the parentheses around a binder that is the body of
+                            // the same kind of binder, the second merges the two telescopes
+                            "nested-binder-parentheses"
                         } else if squeeze(&out) == squeeze(&out2) && third == out2 {
                             let _ = width;
                             "two-pass-relayout"
